@@ -61,6 +61,7 @@ type c13Op struct {
 	W int    `json:"w,omitempty"` // addw: weight, addr: replicas
 	F bool   `json:"f,omitempty"` // (re-)add with a fresh object of the same identity
 	A int    `json:"a,omitempty"` // 1,2: use another Go representation with the SAME repr (string / *Stringer / []byte), if the node's kind has one
+	P int    `json:"p,omitempty"` // 1..8: for a node of kind 8 the String() call with this (symbolic) number made during the operation panics; the caller recovers and retries Remove
 	U bool   `json:"u,omitempty"` // UNSPECIFIED setting (negative, or a weight whose product with the replicas overflows): only as the last op, run for panics / hangs only
 }
 
@@ -68,7 +69,7 @@ type c13Case struct {
 	R     int     `json:"r"`               // <0: NewConsistentHash(); else NewCustomConsistentHash(R, fn)
 	NilFn bool    `json:"nilfn,omitempty"` // custom constructor gets fn == nil instead of Hash
 	Style int     `json:"style"`           // node naming scheme (3 = collision prone)
-	Kinds []int   `json:"kinds"`           // representation per node: 0 string, 1 struct, 2 *Stringer, 3 *struct, 4 int, 5 struct with a slice field (not comparable), 6 []byte, 7 []string
+	Kinds []int   `json:"kinds"`           // representation per node: 0 string, 1 struct, 2 *Stringer, 3 *struct, 4 int, 5 struct with a slice field (not comparable), 6 []byte, 7 []string, 8 *Stringer whose String() can be made to panic on its n-th call
 	Neg   int     `json:"neg,omitempty"`   // != 0: NewCustomConsistentHash(Neg, fn) with a negative replica count (clamped like any value < 100)
 	Twin  bool    `json:"twin,omitempty"`  // a second ring with other replicas lives in the same process, gets every other op and shares the node objects
 	PK    bool    `json:"pk,omitempty"`    // after every op a key whose String() panics is looked up; every call runs under a watchdog
@@ -91,6 +92,54 @@ type c13Stringer struct {
 }
 
 func (s *c13Stringer) String() string { return s.addr }
+
+// c13FlakyCtl / c13FlakyNode: a Stringer node whose String() panics on the
+// panicAt-th call (counted per node identity, stored and passed objects share
+// the control block). 0 = never.
+type c13FlakyCtl struct{ calls, panicAt int }
+
+type c13FlakyNode struct {
+	addr string
+	idx  int
+	gen  int
+	ctl  *c13FlakyCtl
+}
+
+var errC13Node = errors.New("c13: node String() panicked")
+
+func (n *c13FlakyNode) String() string {
+	n.ctl.calls++
+	if n.ctl.calls == n.ctl.panicAt {
+		panic(errC13Node)
+	}
+	return n.addr
+}
+
+// c13Ctls: control blocks of the current case, per node index (single-threaded harness).
+var c13Ctls = map[int]*c13FlakyCtl{}
+
+func c13Ctl(idx int) *c13FlakyCtl {
+	if c13Ctls[idx] == nil {
+		c13Ctls[idx] = &c13FlakyCtl{}
+	}
+	return c13Ctls[idx]
+}
+
+// c13Collide: pairs of strings with the same lib/hash.Hash (murmur3 Sum64)
+// value; verified in init(), used as lookup keys and as node names (style 5).
+var c13Collide = [][2]string{
+	{"cache:user:100016mfbq5izke6w4b75", "cache:user:20002w1C9SrxFsBNdGuxU"},
+	{"app-b1c01c1ebbabfeae", "app-635f1dbb22d2ef8d"},
+}
+
+var c13CollideOK = func() bool {
+	for _, p := range c13Collide {
+		if Hash([]byte(p[0])) != Hash([]byte(p[1])) {
+			return false
+		}
+	}
+	return true
+}()
 
 // c13Tagged is a legal node type that is NOT comparable with == (slice field).
 type c13Tagged struct {
@@ -122,7 +171,7 @@ func c13Name(c c13Case, idx int) string {
 			return strconv.Itoa(6379 + idx)
 		case 1:
 			return strconv.Itoa(11 + idx)
-		case 2, 4:
+		case 2, 4, 5:
 			return strconv.Itoa(100 + idx)
 		default:
 			return c13Prone[idx%len(c13Prone)]
@@ -135,6 +184,11 @@ func c13Name(c c13Case, idx int) string {
 		return "10.0.0." + strconv.Itoa(11+idx) + ":6379"
 	case 2:
 		return "cache-" + string(rune('a'+idx))
+	case 5: // names that collide pairwise under Hash (their labels name+i need not)
+		if idx < 4 {
+			return c13Collide[idx/2][idx%2]
+		}
+		return "cache:user:3-" + string(rune('a'+idx))
 	case 4:
 		if idx == 0 {
 			return ""
@@ -177,6 +231,8 @@ func c13MakeNode(c c13Case, idx, gen, alt int) any {
 		return c13Tagged{Addr: name, ID: idx, Tags: []string{"a", "b"}}
 	case 6:
 		return []byte(name)
+	case 8:
+		return &c13FlakyNode{addr: name, idx: idx, gen: gen, ctl: c13Ctl(idx)}
 	default:
 		return []string{name, "x"}
 	}
@@ -238,6 +294,12 @@ func c13Ident(c c13Case) func(any) int {
 				}
 			}
 		case *c13Stringer:
+			if n != nil {
+				if i, ok := names[n.addr]; ok && i == n.idx {
+					return i
+				}
+			}
+		case *c13FlakyNode:
 			if n != nil {
 				if i, ok := names[n.addr]; ok && i == n.idx {
 					return i
@@ -566,6 +628,14 @@ func c13Interp(c c13Case) (v kit.Verdict) {
 	effR := c13EffR(c)
 	ident := c13Ident(c)
 	keys := c13Keys(c.KS, c.NK)
+	c13Ctls = map[int]*c13FlakyCtl{}
+	if c13CollideOK { // keys colliding under Hash, and keys that ARE virtual-node labels (hash == a ring position)
+		for _, p := range c13Collide {
+			keys = append(keys, p[0], p[1])
+		}
+		classes["keys:hash-collision-pairs"] = true
+	}
+	keys = append(keys, c13Name(c, 0)+"0", c13Name(c, 0)+"1", []byte(c13Name(c, nn-1)+"0"))
 	h := c13New(c)
 	switch {
 	case c.Neg != 0:
@@ -630,8 +700,68 @@ func c13Interp(c c13Case) (v kit.Verdict) {
 			}
 			return v
 		}
+		armed := o.P > 0 && c.Kinds[o.N] == 8
+		if armed {
+			vn := 0
+			if prev.present {
+				vn = prev.lo
+			}
+			ctl := c13Ctl(o.N)
+			ctl.calls, ctl.panicAt = 0, []int{1, 2, 3, 2 + vn/2, vn, vn + 1, vn + 2, vn + 3}[(o.P-1)%8]
+			if ctl.panicAt < 1 {
+				ctl.panicAt = 1
+			}
+		}
 		pan := apply(h, o, obj)
-		if c.Twin && i%2 == 1 && pan == "" {
+		if armed {
+			ctl := c13Ctl(o.N)
+			at := ctl.panicAt
+			ctl.panicAt = 0
+			if pan == errC13Node.Error() && !excluded {
+				// The node's String() panicked inside the operation and the caller recovered.
+				// Whether the half-applied operation counts is UNSPECIFIED; the ring must stay
+				// total on the other nodes, and a retried Remove must leave the node gone.
+				switch {
+				case at == 1:
+					classes["node-panic:first-call"] = true
+				case prev.present && at <= prev.lo+1:
+					classes["node-panic:mid-remove"] = true
+				default:
+					classes["node-panic:add-phase"] = true
+				}
+				what += fmt.Sprintf(" [String() call %d panicked, recovered; Remove retried]", at)
+				others := 0
+				for j, s := range st {
+					if j != o.N && s.present && s.positive {
+						others++
+					}
+				}
+				mid, p2 := c13Lookup(h, keys, ident)
+				if p2 != "" {
+					return v.Failf("%s: Get panicked after the recovered panic: %s", what, p2)
+				}
+				for k, a := range mid {
+					switch {
+					case a.idx == -1:
+						if others > 0 {
+							return v.Failf("%s: after the recovered panic Get(%s) reports absence although %d other node(s) of positive weight are present", what, c13Show(keys[k]), others)
+						}
+					case a.idx == o.N:
+						if !prev.present && o.K == "rm" {
+							return v.Failf("%s: after the recovered panic Get(%s) returned node %d, which was not a member", what, c13Show(keys[k]), a.idx)
+						}
+					case a.idx < 0 || !st[a.idx].present || !st[a.idx].positive || !c13Same(a.obj, st[a.idx].obj):
+						return v.Failf("%s: after the recovered panic Get(%s) returned %v, not a currently added node", what, c13Show(keys[k]), a.obj)
+					}
+				}
+				if p3 := apply(h, c13Op{K: "rm", N: o.N}, obj); p3 != "" {
+					return v.Failf("%s: the retried Remove failed: %s", what, p3)
+				}
+				o = c13Op{K: "rm", N: o.N} // from here on the composite is judged as a removal of the node
+				pan = ""
+			}
+		}
+		if c.Twin && i%2 == 1 && pan == "" && !armed {
 			pan = apply(h2, o, obj)
 			if o.K == "rm" {
 				st2[o.N] = c13State{}
@@ -649,7 +779,21 @@ func c13Interp(c c13Case) (v kit.Verdict) {
 			})
 		}
 		if excluded {
-			_, _ = c13Lookup(h, keys, ident)
+			// Two nodes share(d) a ring position: outside the claim except for the membership
+			// clauses, which are still checked (a panic ends the judging of such a case).
+			if pan != "" {
+				return v
+			}
+			if o.K == "rm" {
+				st[o.N] = c13State{}
+			} else {
+				pos, lo, hi := c13Setting(o, effR)
+				st[o.N] = c13State{present: true, positive: pos, op: o, obj: obj, lo: lo, hi: hi}
+			}
+			if f := c13Membership(h, st, keys, ident, what+" (ring with colliding positions)"); f != "" {
+				return v.Failf("%s", f)
+			}
+			classes["collision:membership-checked"] = true
 			continue
 		}
 		if pan != "" {
@@ -698,6 +842,9 @@ func c13Interp(c c13Case) (v kit.Verdict) {
 			excluded = true
 			v.Excluded = true
 			classes["collision"] = true
+			if f := c13Membership(h, st, keys, ident, what+" (ring with colliding positions)"); f != "" {
+				return v.Failf("%s", f)
+			}
 			continue
 		}
 		if others >= 2 && (o.K == "rm" && prev.present || o.K != "rm" && prev.present && (prev.lo != st[o.N].lo || prev.hi != st[o.N].hi)) {
@@ -823,6 +970,32 @@ func c13Interp(c c13Case) (v kit.Verdict) {
 	return v
 }
 
+// c13Membership: the membership clauses only (used while two nodes share a ring
+// position): Get is ok iff a node of positive weight is present, and then
+// returns a present node of positive weight.
+func c13Membership(h *ConsistentHash, st []c13State, keys []any, ident func(any) int, what string) string {
+	got, pan := c13Lookup(h, keys, ident)
+	if pan != "" {
+		return fmt.Sprintf("%s: Get panicked: %s", what, pan)
+	}
+	anyPositive := false
+	for _, s := range st {
+		anyPositive = anyPositive || (s.present && s.positive)
+	}
+	for k, a := range got {
+		switch {
+		case !anyPositive && a.idx != -1:
+			return fmt.Sprintf("%s: no node of positive weight is present but Get(%s) returned node %d", what, c13Show(keys[k]), a.idx)
+		case !anyPositive:
+		case a.idx == -1:
+			return fmt.Sprintf("%s: Get(%s) reports absence although a node of positive weight is present", what, c13Show(keys[k]))
+		case a.idx < 0 || !st[a.idx].present || !st[a.idx].positive:
+			return fmt.Sprintf("%s: Get(%s) returned %v, which is not a currently added node of positive weight", what, c13Show(keys[k]), a.obj)
+		}
+	}
+	return ""
+}
+
 // c13Checkpoint judges a ring against its model without reference to an earlier
 // map: totality (ok iff a positive node is present; the result is a present,
 // positive node and the object added last), equality with a fresh ring holding
@@ -830,6 +1003,9 @@ func c13Interp(c c13Case) (v kit.Verdict) {
 // and ends with a lookup of keys[0], so that consecutive checkpoints look the
 // same key up back to back across the operations in between.
 func c13Checkpoint(c c13Case, h *ConsistentHash, st []c13State, keys []any, ident func(any) int, what string) string {
+	if _, collision, _, _ := c13Inspect(h, ident, len(st)); collision {
+		return c13Membership(h, st, keys, ident, what+" (ring with colliding positions)")
+	}
 	got, pan := c13Lookup(h, keys, ident)
 	if pan != "" {
 		return fmt.Sprintf("%s: Get panicked: %s", what, pan)
@@ -997,7 +1173,7 @@ func c13ChurnGen(rt *rapid.T) c13ChurnCase {
 	c.Style = rapid.SampledFrom([]int{0, 1, 2, 4}).Draw(rt, "style")
 	nn := rapid.IntRange(2, 8).Draw(rt, "nodes")
 	for i := 0; i < nn; i++ {
-		c.Kinds = append(c.Kinds, int(rapid.Uint64().Draw(rt, "kind")%8))
+		c.Kinds = append(c.Kinds, c13DrawKind(rt))
 	}
 	c.KS = rapid.IntRange(0, 1<<20).Draw(rt, "ks")
 	c.Seed = rapid.IntRange(0, 1<<30).Draw(rt, "seed")
@@ -1026,6 +1202,15 @@ func c13ChurnGen(rt *rapid.T) c13ChurnCase {
 
 func TestVerif_C13_churn(t *testing.T) {
 	kit.Run(t, "C13", "churn", kit.Opts{Quick: 6, Thorough: 48}, c13ChurnGen, c13ChurnInterp)
+}
+
+// c13DrawKind: uniform over the kinds 0..7, kind 8 (String() can panic) twice as likely.
+func c13DrawKind(rt *rapid.T) int {
+	k := int(rapid.Uint64().Draw(rt, "kind") % 10)
+	if k > 8 {
+		k = 8
+	}
+	return k
 }
 
 // c13GenOp: present tracks which nodes the generator believes to be added, so
@@ -1086,6 +1271,9 @@ func c13GenOp(rt *rapid.T, nn, effR int, present []bool) c13Op {
 	if rapid.IntRange(0, 5).Draw(rt, "alias") == 0 {
 		o.A = rapid.IntRange(1, 2).Draw(rt, "a")
 	}
+	if rapid.IntRange(0, 2).Draw(rt, "panic") == 0 { // only effective for nodes of kind 8
+		o.P = 1 + int(rapid.Uint64().Draw(rt, "p")%8)
+	}
 	return o
 }
 
@@ -1102,7 +1290,7 @@ func c13Gen(rt *rapid.T) c13Case {
 	if c.R >= 0 {
 		c.NilFn = rapid.Bool().Draw(rt, "nilfn")
 	}
-	c.Style = rapid.SampledFrom([]int{0, 0, 0, 1, 1, 1, 2, 2, 2, 3, 4, 4}).Draw(rt, "style")
+	c.Style = rapid.SampledFrom([]int{0, 0, 0, 1, 1, 1, 2, 2, 2, 3, 4, 4, 5}).Draw(rt, "style")
 	if rapid.IntRange(0, 19).Draw(rt, "negr") == 0 {
 		c.R, c.Neg = 50, rapid.SampledFrom([]int{-1, -100, math.MinInt64, math.MinInt32}).Draw(rt, "neg")
 	}
@@ -1110,7 +1298,7 @@ func c13Gen(rt *rapid.T) c13Case {
 	c.PK = rapid.IntRange(0, 9).Draw(rt, "pk") == 0
 	nn := rapid.SampledFrom([]int{1, 2, 3, 3, 4, 4, 5, 5, 6, 6}).Draw(rt, "nodes")
 	for i := 0; i < nn; i++ {
-		c.Kinds = append(c.Kinds, int(rapid.Uint64().Draw(rt, "kind")%8))
+		c.Kinds = append(c.Kinds, c13DrawKind(rt))
 	}
 	c.KS = rapid.IntRange(0, 1<<20).Draw(rt, "ks")
 	n := rapid.SampledFrom([]int{1, 2, 3, 4, 5, 6, 7, 8, 9, 10, 11, 12, 13, 14, 15, 15}).Draw(rt, "nops")
@@ -1161,7 +1349,7 @@ func c13HugeGen(rt *rapid.T) c13Case {
 		nn = 2
 	}
 	for i := 0; i < nn; i++ {
-		c.Kinds = append(c.Kinds, int(rapid.Uint64().Draw(rt, "kind")%8))
+		c.Kinds = append(c.Kinds, c13DrawKind(rt))
 	}
 	c.KS = rapid.IntRange(0, 1<<20).Draw(rt, "ks")
 	setting := func(n int, full bool) c13Op {
@@ -1457,7 +1645,7 @@ func c13BalGen(rt *rapid.T) c13Case {
 		total++
 	}
 	for i := 0; i < total; i++ {
-		c.Kinds = append(c.Kinds, int(rapid.Uint64().Draw(rt, "kind")%8))
+		c.Kinds = append(c.Kinds, c13DrawKind(rt))
 	}
 	c.KS = rapid.IntRange(0, 1<<20).Draw(rt, "ks")
 	setting := func(i int, label string) c13Op {
